@@ -123,7 +123,7 @@ def schema_facts(s, std="c++17", asserts=True, all_cursor_kinds=True, arrays=Tru
     instantiations it causes)."""
     root, results = generate_all()
     if results[s.name]["rc"] != 0:
-        raise AnalysisBroken("sbeppc failed on %s: %s" % (s.name, results[s.name]["out"][-300:]))
+        raise GeneratorRejects(s.name, results[s.name]["rc"], results[s.name]["out"][-300:].strip())
     src = harness_source(s, root, all_cursor_kinds=all_cursor_kinds, arrays=arrays)
     key = sha(os.path.basename(root), s.name, std, str(asserts), hash_files([src, os.path.join(HARNESS_DIR, "vh_common.hpp"),
               os.path.join(VERIF, "tool", "sbepp-facts.cc")]), "sf-v1")
